@@ -87,6 +87,15 @@ CHECKS = {
              "against non-reentrant, reentrant (per-buffer yylineno) and c99 scanners and compared token by token (labelled with the "
              "buffer) with the extracted model; yy_scan_buffer is probed with unterminated buffers.",
         design="DESIGN.md section 6 C11", technique="machine-checked proof (Rocq) of buffer independence + differential histories"),
+    "C12": dict(
+        text="PARTIAL. Rocq theorems (coq/Isolation.v): C12_interleaving_independent and C12_schedules_equivalent - in a system whose "
+             "steps touch one instance only, under EVERY schedule of calls each instance delivers exactly what it delivers when run alone "
+             "(C12_shared_state_breaks_it: one shared cell is enough to lose this). That generated scanners are such systems is checked, "
+             "not proved: nm shows no writable data in the object of a reentrant scanner, 2-5 instances of generated reentrant C / c99 / "
+             "C++ scanners are interleaved call by call under generated schedules and compared per instance with the run alone, the same "
+             "instances run in one thread each under ThreadSanitizer, and two scanners with different prefixes are linked into one "
+             "program (disjoint external symbols, own tables).",
+        design="DESIGN.md section 6 C12", technique="machine-checked proof (Rocq) of interleaving independence + object facts (nm) + generated interleavings + ThreadSanitizer"),
     "C13": dict(
         category="proof",
         text="PARTIAL. Rocq theorems: C13_*_lookups_in_range (for tables passing the extracted range check, the compressed / full / "
